@@ -32,7 +32,7 @@ ASSUMPTIONS = [
 ]
 REQUIRED = {"all": ["judged_calls", "references_computed", "pair:get_kappa->get_deltaMax(True)",
                     "pair:get_deltaMax->get_deltaMax(True)", "after_perturber_raise", "multi_object_histories",
-                    "preset_phosphosites_histories", "distinct_ops_ge_40", "state_snapshots", "adopted_shuffled_children"]}
+                    "preset_phosphosites_histories", "distinct_ops_ge_40", "state_snapshots", "adopted_shuffled_children", "thread_rounds"]}
 NHIST = {"quick": 280, "thorough": 3000}
 NSEQ = {"quick": 90, "thorough": 600}
 MAX_SHARDS = 16
@@ -128,6 +128,9 @@ TARGETED = [
     [("get_isoelectric_point", ()), ("get_NCPR(pH)", (7,)), ("get_FCR(pH)", (7.4,))],
     [("get_linear_sequence_composition", ()), ("get_linear_sequence_composition", ()), ("get_linear_sequence_composition(w)", (1,))],
     [("get_amino_acid_fractions", ()), ("get_amino_acid_fractions", ())],
+    [("get_isoelectric_point", ()), ("get_isoelectric_point", ()), ("get_isoelectric_point", ())],
+    [("get_SCD", ()), ("get_SCD", ())],
+    [("get_isoelectric_point", ()), ("get_FCR(pH)", (14,)), ("get_isoelectric_point", ())],
 ]
 PERTURBERS = ["bad_window", "bad_group", "bad_pH", "bad_type", "bad_alphabet", "shuffle", "bad_ppii", "plot", "compfile",
               "bad_window", "bad_group", "bad_pH", "shuffle"]
@@ -249,10 +252,14 @@ def cases(tier, seed):
     # sequences whose raw delta/delta-max ratio lies in (1, 1.1) (the clamp branch of kappa) or far above 1
     seqs[6:18] = ["EKKGGKE", "EKGKKGE", "EGGGGGE", "EEGGGGGE", "KKGGGGGK", "KGEEEEGGK", "EGKKKKGGE", "DRKSTRE",
                   "EEEEEEEEEEEEEEEEEEKG", "KEEEEK", "GKKKKG", "EGKKKEE"]
+    # chains in which almost nothing but arginine (or nothing at all) titrates: the isoelectric-point search leaves 0..14
+    seqs[18:24] = ["RRRRRRRRRRRRGG", "R" * 20 + "HK", "RRRRRRRRRRGSGSR", "GSGSGSGSQQ", "R" * 45 + "D", "KRRRRRRRRRRRRRRRRRRR"]
     yield {"sweep": 260 if tier == "quick" else 900, "seqs": [], "o": 3}
+    for j in range(2 if tier == "quick" else 8):
+        yield {"threads": 1, "seqs": [rng.choice(seqs) for _ in range(6)] + ["SGGTYKKEESTYPPLLMM", "IIIIIIIIIIKE"], "o": j}
     for i in range(NHIST[tier]):
         k = rng.choice([1, 1, 2, 3, 4])
-        pool = seqs[:18] if i % 5 == 0 else seqs
+        pool = seqs[:24] if i % 5 == 0 else seqs
         yield {"seqs": [rng.choice(pool) for _ in range(k)], "o": rng.randrange(1 << 30)}
 
 
@@ -336,9 +343,33 @@ def judge_sweep(case, rep, S):
                 return
 
 
+def judge_threads(case, rep, S):
+    """Read-only queries asked by several threads, each on objects of its own: the answers are those of a quiet process."""
+    from .. import threads as T
+    table = {}
+    for n in ["get_mean_hydropathy", "get_uversky_hydropathy", "get_WW_hydropathy", "get_fraction_disorder_promoting",
+              "get_amino_acid_fractions", "get_SCD", "get_kappa", "get_Omega", "get_Omega_sequence", "get_deltaMax", "get_delta",
+              "get_FCR", "get_NCPR", "get_isoelectric_point", "get_molecular_weight", "get_phasePlotRegion", "get_PPII_propensity",
+              "get_HTMLColorString", "get_reduced_alphabet_sequence", "get_deltaMax(True)"]:
+        table[n] = OPS[n]
+    table["get_kappa_X(ST,Y)"] = lambda o: OPS["get_kappa_X"](o, "ED", "KR")
+    table["get_FCR(pH=3.3)"] = lambda o: OPS["get_FCR(pH)"](o, 3.3)
+    table["get_PPII(creamer)"] = lambda o: OPS["get_PPII_propensity(mode)"](o, "creamer")
+    table["get_linear_NCPR(3)"] = lambda o: OPS["get_linear_NCPR(w)"](o, 3)
+    table["get_linear_hydropathy(2)"] = lambda o: OPS["get_linear_hydropathy(w)"](o, 2)
+    table["get_linear_sequence_composition(2)"] = lambda o: OPS["get_linear_sequence_composition(w)"](o, 2)
+    table["reduced(8)"] = lambda o: OPS["get_reduced_alphabet_sequence(size)"](o, 8)
+    table["reduced(user)"] = lambda o: OPS["get_reduced_alphabet_sequence(user)"](o, 0)
+    table["complexity(WF,4,3)"] = lambda o: OPS["get_linear_complexity(cfg)"](o, "WF", 4, 3, 1, 2)
+    seqs = [s for s in dict.fromkeys(case["seqs"]) if len(s) >= 4]
+    T.own_object_agreement(S["SP"], seqs[:5], table, rep, "concurrent_callers", nthreads=4, rounds=2, seed=case["o"], counter="thread_rounds")
+
+
 def judge(case, rep, S):
     if case.get("sweep"):
         return judge_sweep(case, rep, S)
+    if case.get("threads"):
+        return judge_threads(case, rep, S)
     if case.get("k") == "repo_suite_under_contracts":
         judge_repo_suite(rep)
         return
